@@ -10,6 +10,19 @@ if [[ "$M" == sed:* ]]; then
   IFS=: read -r _ F E <<<"$M"
   sed -i -E "$E" "$D/$F" || { echo "sed failed"; rm -rf "$D"; exit 3; }
   if diff -q "/repo/$F" "$D/$F" >/dev/null; then echo "MUTANT DID NOT CHANGE ANYTHING"; rm -rf "$D"; exit 3; fi
+elif [[ "$M" == py:* ]]; then
+  # py:<file>:<old>=><new>   (literal replacement, first occurrence; \n for newlines)
+  F="${M#py:}"; F="${F%%:*}"; SPEC="${M#py:*:}"
+  python3 - "$D/$F" "$SPEC" <<'PY' || { echo "py mutation failed"; rm -rf "$D"; exit 3; }
+import sys
+path, spec = sys.argv[1], sys.argv[2]
+old, new = spec.split("=>", 1)
+old = old.replace("\\n", "\n"); new = new.replace("\\n", "\n")
+s = open(path).read()
+if old not in s:
+    print("MUTANT DID NOT CHANGE ANYTHING"); sys.exit(1)
+open(path, "w").write(s.replace(old, new, 1))
+PY
 else
   (cd "$D" && patch -p1 -s < "$M") || { echo "patch failed"; rm -rf "$D"; exit 3; }
 fi
